@@ -222,3 +222,18 @@ package internal_planner
 //@   flag checks=-index
 //@   at sanitizeLabel leaf-named-by-its-path: arg0 == (prefix != "" ? prefix + "_" + key : prefix + key)
 //@   at subDec nested-object-under-its-path: arg1 == (prefix != "" ? prefix + "_" + key : prefix + key)
+
+// The series identity recomputed after a stage changed the labels: every label
+// contributes the hash of a text that determines the (name, value) pair - the name,
+// a NUL byte, the value (label names never contain NUL) - so that {ab="c"} and
+// {a="bc"} are different series. The three accumulators are the commutative folds
+// of these hashes (lemmas step-*-commutes in specs/hash.spec), so the order in which
+// the map is walked does not matter.
+//@ func fingerprint [C09]
+//@   flag arith=bv
+//@   flag checks=-index,-assert
+//@   loop 1:
+//@     modifies elems(descr)
+//@     step add: descr[0] == prev(descr[0]) + ch64(k + "\x00" + v)
+//@     step xor: descr[1] == prev(descr[1]) ^ ch64(k + "\x00" + v)
+//@     step mix: descr[2] == prev(descr[2]) * (1779033703 + 2 * ch64(k + "\x00" + v))
